@@ -23,8 +23,8 @@ CONSTANTS
   DevAvg = FALSE
   DevArr = FALSE
   DevNul = FALSE
-  DevInd = TRUE
-  DevEncAvg = TRUE
+  DevInd = FALSE
+  DevEncAvg = FALSE
   RowAlph = {}
   RowAlph3 = {}
   DevEmpty = FALSE
